@@ -29,7 +29,12 @@ outcome, list items beyond a struct array's length are ignored.
 * well-formedness of string fields is a theorem about M4 (`wf_of_validated_str`, `str_assign_then_roundtrip`; this is
   where C10-F1 lived: before the fix a short string written over a long one left stale bytes, which are not well-formed
   and do not round-trip).
-* `Message.from_json` refuses exactly the non-zero foreign versions (`json_version_refused`, `json_version_accepted`).
+* `Message.from_json` refuses exactly the non-zero foreign versions (`json_version_refused`, `json_version_accepted`) -
+  and does so **before it looks at the data segment, for every class** (`msgFromJson`: header, class lookup, version
+  check, data; `foreign_version_refused_whatever_the_data`, `own_or_unset_version_reaches_the_data`,
+  `msgFromJson_meets_version_clause`).  The driver compares the real `Message.from_json` with `msgFromJson` on every class,
+  the ones without fields (signals) included, on minified and indented text and on texts whose "data" member is missing,
+  `{}` or `null` (seeded change C10h: an early return for signal classes in front of the check).
 
 Floats: values cross as IEEE bit patterns.  `double` leaves and arrays round-trip **exactly** (every finite value, -0.0,
 every NaN payload; the validators never store an infinity, which is part of `WF`).  `float` (binary32) leaves and arrays
@@ -83,6 +88,38 @@ theorem json_version_refused (v h : Nat) : versionRefused v h = true ↔ (v ≠ 
 
 theorem json_version_accepted (v h : Nat) : versionRefused v h = false ↔ (v = 0 ∨ v = h) := by
   simp [versionRefused]; omega
+
+/-- **A foreign version is refused whatever the data segment is** - present or missing, `{}`, `null`, decodable or not -
+and for every message class: `msgFromJson` has no class parameter, so classes without fields (signals: EXIT, KILL,
+ACKNOWLEDGE, …) are refused like any other.  (The seeded change C10h returns early for such classes *before* the check;
+the driver compares `Message.from_json` with `msgFromJson` on every class, zero-size ones included.) -/
+theorem foreign_version_refused_whatever_the_data (v h : Nat) (hv : v ≠ 0) (hh : v ≠ h) (dataOk : Bool) :
+    msgFromJson v h dataOk = .refused := by
+  have : versionRefused v h = true := (json_version_refused v h).2 ⟨hv, hh⟩
+  simp [msgFromJson, this]
+
+/-- … and only a foreign version is refused: with the own hash or with 0 the outcome is decided by the data segment -/
+theorem own_or_unset_version_reaches_the_data (v h : Nat) (hv : v = 0 ∨ v = h) (dataOk : Bool) :
+    msgFromJson v h dataOk = if dataOk then .decoded else .failed := by
+  have : versionRefused v h = false := (json_version_accepted v h).2 hv
+  simp [msgFromJson, this]
+
+/-- an observation that consists of one version probe -/
+def probeObs (v h : Nat) (refused : Bool) (what : String) (altered : Bool) : Pyrtma.Serial.Obs :=
+  { orig := [], trips := [], copyShares := false, vers := [{ version := v, localHash := h, refused := refused, what := what, altered := altered }] }
+
+/-- the Spec's clause for one probe is met by the model's outcome: as written (both directions) and with an altered
+data segment (refusal direction) -/
+theorem msgFromJson_meets_version_clause (v h : Nat) (dataOk altered : Bool) (what : String)
+    (hd : altered = false → dataOk = true) :
+    ∀ c ∈ Pyrtma.Serial.clauses (probeObs v h (decide (msgFromJson v h dataOk = .refused)) what altered), c.2 = true := by
+  intro c hc
+  simp only [probeObs, Pyrtma.Serial.clauses, List.map_nil, List.nil_append, List.map_cons, List.cons_append,
+    List.mem_cons, List.not_mem_nil, or_false] at hc
+  rcases hc with rfl | rfl
+  · rfl
+  · cases hr : versionRefused v h <;> cases altered <;> cases hdo : dataOk <;>
+      simp_all [msgFromJson]
 
 /-! ### little-endian, the other direction -/
 theorem toLE_fromLE : ∀ (b : Bytes), (∀ x ∈ b, x < 256) → toLE b.length (fromLE b) = b
@@ -1056,6 +1093,15 @@ example : toDictLeaf (.int .i16) [0, 128] = .sc (.int (-32768)) := by decide
 example : fromDictLeaf (.arr .intArray (.int .i8) 3) (toDictLeaf (.arr .intArray (.int .i8) 3) [255, 0, 127]) = ([255, 0, 127], none) := by decide
 example : fromDictLeaf (.arr .byteArray .byte 2) (toDictLeaf (.arr .byteArray .byte 2) [255, 0]) = ([255, 0], none) := by decide
 example : versionRefused 5 6 = true ∧ versionRefused 0 6 = false ∧ versionRefused 6 6 = false := by decide
+/-- non-vacuity: the three outcomes occur; a wrong version is refused also when the data segment would not decode -/
+example : msgFromJson 5 6 true = .refused ∧ msgFromJson 5 6 false = .refused ∧ msgFromJson 6 6 true = .decoded ∧
+    msgFromJson 0 6 false = .failed := by decide
+/-- the clause separates observations: a foreign version *accepted* on a text without "data" fails it, a matching version
+that fails on such a text does not -/
+example : (Pyrtma.Serial.clauses (probeObs 5 6 false "min_no_data" true)).any (!·.2) = true ∧
+    (Pyrtma.Serial.clauses (probeObs 6 6 true "min_no_data" true)).all (·.2) = true ∧
+    (Pyrtma.Serial.clauses (probeObs 6 6 true "pretty" false)).any (!·.2) = true := by
+  decide
 
 /-! #### whole classes -/
 /-- a class with a leading `int16`, two bytes of padding, then `StructArray(S, 2)` where `S = {uint8 x; char t[3]}` -/
